@@ -89,12 +89,16 @@ def concretise(rng, kinds, sched):
     return segs, sent
 
 
+HEXPAIRS = re.compile(r"(?:[0-9a-f]{2})+")
+
+
 def line_info(raw_lines):
     sent = []
     for l in raw_lines:
         body = l[1:-2] if l.startswith(b"*") and l.endswith(b";\n") and len(l) >= 3 else b""
         ok = len(body) > 0 and len(body) % 2 == 0 and all(chr(c) in "0123456789abcdefABCDEF" for c in body)
-        sent.append({"text": body.decode("latin-1").lower() if ok else "", "wf": 1 if ok else 0})
+        cb = l[1:-2].decode("latin-1").lower() if len(l) >= 3 else ""
+        sent.append({"text": body.decode("latin-1").lower() if ok else "", "wf": 1 if ok else 0, "body": cb if HEXPAIRS.fullmatch(cb) else ""})
     return sent
 
 
@@ -214,7 +218,8 @@ def run(prop, tier, seed, rep):
     for i in range(6 if tier == "quick" else 120):
         vs = valid_lines(rng, 3)
         l1, l2, l3 = (b"*" + v.encode() + b";\n" for v in vs)
-        head = rng.choice((b"*8D4840", b"*", b"*8d4840d6202cc371c32ce057", b"x"))
+        # (a head that is a whole frame text: without its stray bytes the line would be a frame - it is not one)
+        head = rng.choice((b"*8D4840", b"*", b"*8d4840d6202cc371c32ce057", b"x", b"*" + valid_lines(rng, 1)[0].encode(), b"*" + valid_lines(rng, 1)[0].encode()))
         tail = rng.choice((b"\xff\xfe20;\n", b"\xfe\n", b"\xc3", b"\xa9;\n", b"\xe2\x82"))
         rest = b";\n" if not tail.endswith(b"\n") else b""
         segs = [[list(l1 + head), "long"], [list(tail), rng.choice(("long", "short"))], [list(rest + l2 + l3), "short"]]
@@ -297,6 +302,11 @@ def run(prop, tier, seed, rep):
         for h, d in zip(want, core.run_hx(hx, ["decode", "--text"], [{"bytes": list(bytes.fromhex(h))} for h in want])):
             ref[h] = d.get("rawtext", []) if any(c != "0" for c in h) else []     # all-zero lines are skipped by the clients
     for e in events:
+        e["taken"] = [x for x in e["printed"] if HEXPAIRS.fullmatch(x)]
+        # what the clients' framing makes of each complete line of the feed: the line without its first character and its
+        # last one before the newline (neither client looks at those two)
+        for x in e["sent"]:
+            x.setdefault("body", x["text"])
         blocks = e.pop("blocks", [])
         e["texts"] = [{"hex": b_["hex"], "got": b_["text"], "want": ref[b_["hex"]]} for b_ in blocks if b_["hex"] in ref]
     verdicts, st, tr = core.validate_events("Trace_Feed", events, prop, shards=1)
